@@ -132,8 +132,11 @@ impl SharedUdpPort {
 
         let ufrag = if let Some(u) = target_ufrag {
             // Record/refresh peer routing so subsequent non-STUN packets
-            // from this source reach the right session.
-            self.peers.lock().insert(peer_addr, u.clone());
+            // from this source reach the right session — but only for a session
+            // that exists: entries for unknown ufrags would never be removed.
+            if self.sessions.lock().contains_key(&u) {
+                self.peers.lock().insert(peer_addr, u.clone());
+            }
             Some(u)
         } else {
             self.peers.lock().get(&peer_addr).cloned()
